@@ -314,41 +314,246 @@ theorem tok_segs (env : Env) (rest : Bytes) (hr : EndsTok rest) (segs : List Seg
       rw [this, h2]
       simp [valueSegs, List.append_assoc]
 
-/-- A well-formed token at the end of the line is one argument: its value. -/
-theorem tok_token_end (env : Env) (segs : List Seg) (hne : segs ≠ []) (hA : Alt segs) (args : List Bytes) :
-    tok env (renderSegs segs) args [] none false = .ok (args ++ [valueSegs env segs]) := by
+/-- A well-formed token followed by something that ends a token is one argument — its value —
+and the loop continues after it with nothing pending. -/
+theorem tok_token (env : Env) (segs : List Seg) (hne : segs ≠ []) (hA : Alt segs) (rest : Bytes)
+    (hr : EndsTok rest) (args : List Bytes) :
+    tok env (renderSegs segs ++ rest) args [] none false =
+      tok env rest (args ++ [valueSegs env segs]) [] none false := by
   cases segs with
   | nil => exact absurd rfl hne
   | cons s segs =>
-    obtain ⟨arg', ch', h1, h2⟩ := tok_segs env [] (Or.inl rfl) segs s hA args [] none (fun _ => Or.inl rfl)
-    have h1' : tok env (renderSegs (s :: segs)) args [] none false = tok env [] args arg' (some ch') false := by
-      simpa using h1
-    rw [h1', tok_nil_unq]
-    simp [h2, stText]
+    obtain ⟨arg', ch', h1, h2⟩ := tok_segs env rest hr segs s hA args [] none (fun _ => Or.inl rfl)
+    have h2' : arg' ++ expand env ch' = valueSegs env (s :: segs) := by simpa [stText] using h2
+    rw [h1]
+    rcases hr with hr | ⟨c, r, hr, hc | hc⟩
+    · subst hr
+      rw [tok_nil_unq, tok_nil_unq]
+      simp [h2']
+    · subst hr
+      rw [tok_blank env c r args arg' (some ch') hc, tok_blank env c r _ [] none hc]
+      simp [h2']
+    · subst hr
+      rw [tok_comment env c r args arg' (some ch') hc, tok_comment env c r _ [] none hc]
+      simp [h2']
 
-/-- A well-formed token followed by a blank: one argument, then the loop goes on with no pending text. -/
-theorem tok_token_blank (env : Env) (segs : List Seg) (hne : segs ≠ []) (hA : Alt segs) (args : List Bytes)
-    (c : UInt8) (r : Bytes) (hc : isBlank c = true) :
-    tok env (renderSegs segs ++ c :: r) args [] none false =
-      tok env r (args ++ [valueSegs env segs]) [] none false := by
-  cases segs with
-  | nil => exact absurd rfl hne
-  | cons s segs =>
-    obtain ⟨arg', ch', h1, h2⟩ :=
-      tok_segs env (c :: r) (Or.inr ⟨c, r, rfl, Or.inl hc⟩) segs s hA args [] none (fun _ => Or.inl rfl)
-    rw [h1, tok_blank env c r args arg' (some ch') hc]
-    simp [h2, stText]
+/-! ### whole lines -/
 
-/-- A well-formed token followed by a comment byte: one argument, and the line ends. -/
-theorem tok_token_comment (env : Env) (segs : List Seg) (hne : segs ≠ []) (hA : Alt segs) (args : List Bytes)
-    (c : UInt8) (r : Bytes) (hc : isComment c = true) :
-    tok env (renderSegs segs ++ c :: r) args [] none false = .ok (args ++ [valueSegs env segs]) := by
-  cases segs with
-  | nil => exact absurd rfl hne
-  | cons s segs =>
-    obtain ⟨arg', ch', h1, h2⟩ :=
-      tok_segs env (c :: r) (Or.inr ⟨c, r, rfl, Or.inr hc⟩) segs s hA args [] none (fun _ => Or.inl rfl)
-    rw [h1, tok_comment env c r args arg' (some ch') hc]
-    simp [h2, stText]
+/-- The end of a line: blanks, then nothing or a comment. -/
+def LineTail (t : Bytes) : Prop :=
+  ∃ b, AllBlank b ∧ (t = b ∨ ∃ c r, isComment c = true ∧ t = b ++ c :: r)
+
+theorem tok_tail (env : Env) (t : Bytes) (ht : LineTail t) (args : List Bytes) :
+    tok env t args [] none false = .ok args := by
+  obtain ⟨b, hb, rfl | ⟨c, r, hc, rfl⟩⟩ := ht
+  · have := tok_blanks env t [] args hb
+    rw [List.append_nil] at this
+    rw [this, tok_nil_unq]
+  · rw [tok_blanks env b _ args hb, tok_comment env c r args [] none hc]
+
+theorem LineTail.endsTok {t : Bytes} (ht : LineTail t) : EndsTok t := by
+  obtain ⟨b, hb, rfl | ⟨c, r, hc, rfl⟩⟩ := ht
+  · cases t with
+    | nil => exact Or.inl rfl
+    | cons x b => exact Or.inr ⟨x, b, rfl, Or.inl (hb x (by simp))⟩
+  · cases b with
+    | nil => exact Or.inr ⟨c, r, rfl, Or.inr hc⟩
+    | cons x b => exact Or.inr ⟨x, b ++ c :: r, rfl, Or.inl (hb x (by simp))⟩
+
+/-- Tokens with the blank run that precedes each. -/
+def renderToks (toks : List (Bytes × List Seg)) : Bytes := toks.flatMap fun p => p.1 ++ renderSegs p.2
+
+def TokOK (p : Bytes × List Seg) : Prop := AllBlank p.1 ∧ p.2 ≠ [] ∧ Alt p.2
+
+/-- The line law: blank runs (non-empty between tokens), well-formed tokens, a line tail. -/
+theorem tok_line (env : Env) (tail : Bytes) (ht : LineTail tail) (toks : List (Bytes × List Seg)) :
+    (∀ p ∈ toks, TokOK p) → (∀ p ∈ toks.tail, p.1 ≠ []) → ∀ args : List Bytes,
+    tok env (renderToks toks ++ tail) args [] none false = .ok (args ++ toks.map fun p => valueSegs env p.2) := by
+  induction toks with
+  | nil =>
+    intro _ _ args
+    simpa [renderToks] using tok_tail env tail ht args
+  | cons p more ih =>
+    intro hok hsep args
+    obtain ⟨hb, hne, hA⟩ := hok p (by simp)
+    have hrest : EndsTok (renderToks more ++ tail) := by
+      cases more with
+      | nil => simpa [renderToks] using ht.endsTok
+      | cons q more' =>
+        have hq1 : q.1 ≠ [] := hsep q (by simp)
+        have hqb : AllBlank q.1 := (hok q (by simp)).1
+        cases hq : q.1 with
+        | nil => exact absurd hq hq1
+        | cons x b =>
+          refine Or.inr ⟨x, b ++ renderSegs q.2 ++ renderToks more' ++ tail, ?_, Or.inl (hqb x (by simp [hq]))⟩
+          simp [renderToks, hq, List.append_assoc]
+    have hsplit : renderToks (p :: more) ++ tail = p.1 ++ (renderSegs p.2 ++ (renderToks more ++ tail)) := by
+      simp [renderToks, List.append_assoc]
+    rw [hsplit, tok_blanks env p.1 _ args hb, tok_token env p.2 hne hA _ hrest args]
+    have hsep' : ∀ q ∈ more.tail, q.1 ≠ [] := by
+      intro q hq
+      cases more with
+      | nil => simp at hq
+      | cons m more' => exact hsep q (by simp [List.mem_of_mem_tail hq])
+    rw [ih (fun q hq => hok q (by simp [hq])) hsep' (args ++ [valueSegs env p.2])]
+    simp [List.append_assoc]
+
+/-! ### balance of quotes -/
+
+/-- Specification of "the line ends inside quotes": a two-state scan that toggles at every quote
+byte and stops at a comment byte seen outside quotes (no knowledge of the doubling rule). -/
+def unbalanced : Bytes → Bool → Bool
+  | [], q => q
+  | c :: r, q =>
+    if c = quoteChar then unbalanced r (!q)
+    else if !q && isComment c then false
+    else unbalanced r q
+
+theorem tok_balance (env : Env) (n : Nat) :
+    ∀ (s : Bytes), s.length ≤ n → ∀ (args : List Bytes) (arg : Bytes) (st : Option Bytes) (q : Bool),
+      (q = true → st.isSome = true) →
+      (tok env s args arg st q = .error .unterminated ∧ unbalanced s q = true) ∨
+      (∃ l, tok env s args arg st q = .ok l ∧ unbalanced s q = false) := by
+  induction n with
+  | zero =>
+    intro s hs args arg st q hq
+    have : s = [] := List.eq_nil_of_length_eq_zero (Nat.le_zero.1 hs)
+    subst this
+    cases q
+    · right; rw [tok_nil_unq]; exact ⟨_, rfl, rfl⟩
+    · left; rw [tok_nil_q]; exact ⟨rfl, rfl⟩
+  | succ n ih =>
+    intro s hs args arg st q hq
+    cases s with
+    | nil =>
+      cases q
+      · right; rw [tok_nil_unq]; exact ⟨_, rfl, rfl⟩
+      · left; rw [tok_nil_q]; exact ⟨rfl, rfl⟩
+    | cons c r =>
+      have hr : r.length ≤ n := by simpa using hs
+      cases q with
+      | false =>
+        by_cases hcq : c = quoteChar
+        · subst hcq
+          rw [tok_open]
+          have := ih r hr args (arg ++ stText env st) (some []) true (fun _ => rfl)
+          simpa [unbalanced] using this
+        · by_cases hcc : isComment c = true
+          · right
+            rw [tok_comment env c r args arg st hcc]
+            exact ⟨_, rfl, by simp [unbalanced, hcq, hcc]⟩
+          · have hcc' : isComment c = false := by simpa using hcc
+            by_cases hcb : isBlank c = true
+            · rw [tok_blank env c r args arg st hcb]
+              have hu : unbalanced (c :: r) false = unbalanced r false := by simp [unbalanced, hcq, hcc']
+              rw [hu]
+              cases st with
+              | none => exact ih r hr _ _ _ false (by simp)
+              | some ch => exact ih r hr _ _ _ false (by simp)
+            · have hcb' : isBlank c = false := by simpa using hcb
+              rw [tok_ord env c r args arg st ⟨hcb', hcc', hcq⟩]
+              have hu : unbalanced (c :: r) false = unbalanced r false := by simp [unbalanced, hcq, hcc']
+              rw [hu]
+              exact ih r hr _ _ _ false (by simp)
+      | true =>
+        obtain ⟨ch, hst⟩ : ∃ ch, st = some ch := by
+          cases st with
+          | none => simp at hq
+          | some ch => exact ⟨ch, rfl⟩
+        subst hst
+        by_cases hcq : c = quoteChar
+        · subst hcq
+          cases r with
+          | nil =>
+            right
+            rw [tok_q_close env [] args arg ch (by simp), tok_nil_unq]
+            exact ⟨_, rfl, by simp [unbalanced]⟩
+          | cons c2 r2 =>
+            by_cases hc2 : c2 = quoteChar
+            · subst hc2
+              rw [tok_q_doubled]
+              have hr2 : r2.length ≤ n := by simp at hr; omega
+              have := ih r2 hr2 args (arg ++ ch) (some [quoteChar]) true (fun _ => rfl)
+              simpa [unbalanced] using this
+            · rw [tok_q_close env (c2 :: r2) args arg ch (by simpa using hc2)]
+              have := ih (c2 :: r2) hr args (arg ++ ch) (some []) false (by simp)
+              simpa [unbalanced] using this
+        · rw [tok_q_other env c r args arg ch hcq]
+          have hu : unbalanced (c :: r) true = unbalanced r true := by simp [unbalanced, hcq]
+          rw [hu]
+          exact ih r hr _ _ _ true (fun _ => rfl)
+
+/-- Text after a comment byte that stands outside quotes is ignored. -/
+theorem tok_comment_cut (env : Env) (c : UInt8) (t : Bytes) (hc : isComment c = true) (n : Nat) :
+    ∀ (s : Bytes), s.length ≤ n → ∀ (args : List Bytes) (arg : Bytes) (st : Option Bytes) (q : Bool),
+      (q = true → st.isSome = true) → unbalanced s q = false →
+      tok env (s ++ c :: t) args arg st q = tok env s args arg st q := by
+  have hcq0 : c ≠ quoteChar := by
+    intro h; subst h; revert hc; decide
+  induction n with
+  | zero =>
+    intro s hs args arg st q hq hu
+    have : s = [] := List.eq_nil_of_length_eq_zero (Nat.le_zero.1 hs)
+    subst this
+    have : q = false := by simpa [unbalanced] using hu
+    subst this
+    simp only [List.nil_append]
+    rw [tok_comment env c t args arg st hc, tok_nil_unq]
+  | succ n ih =>
+    intro s hs args arg st q hq hu
+    cases s with
+    | nil =>
+      have : q = false := by simpa [unbalanced] using hu
+      subst this
+      simp only [List.nil_append]
+      rw [tok_comment env c t args arg st hc, tok_nil_unq]
+    | cons x r =>
+      have hr : r.length ≤ n := by simpa using hs
+      simp only [List.cons_append]
+      cases q with
+      | false =>
+        by_cases hxq : x = quoteChar
+        · subst hxq
+          rw [tok_open, tok_open]
+          exact ih r hr _ _ _ true (fun _ => rfl) (by simpa [unbalanced] using hu)
+        · by_cases hxc : isComment x = true
+          · rw [tok_comment env x _ args arg st hxc, tok_comment env x _ args arg st hxc]
+          · have hxc' : isComment x = false := by simpa using hxc
+            have hu' : unbalanced r false = false := by simpa [unbalanced, hxq, hxc'] using hu
+            by_cases hxb : isBlank x = true
+            · rw [tok_blank env x _ args arg st hxb, tok_blank env x _ args arg st hxb]
+              cases st with
+              | none => exact ih r hr _ _ _ false (by simp) hu'
+              | some ch => exact ih r hr _ _ _ false (by simp) hu'
+            · have hxb' : isBlank x = false := by simpa using hxb
+              rw [tok_ord env x _ args arg st ⟨hxb', hxc', hxq⟩, tok_ord env x _ args arg st ⟨hxb', hxc', hxq⟩]
+              exact ih r hr _ _ _ false (by simp) hu'
+      | true =>
+        obtain ⟨ch, hst⟩ : ∃ ch, st = some ch := by
+          cases st with
+          | none => simp at hq
+          | some ch => exact ⟨ch, rfl⟩
+        subst hst
+        by_cases hxq : x = quoteChar
+        · subst hxq
+          cases r with
+          | nil =>
+            simp only [List.nil_append]
+            rw [tok_q_close env (c :: t) args arg ch (by simpa using hcq0),
+              tok_q_close env [] args arg ch (by simp), tok_comment env c t _ _ _ hc, tok_nil_unq]
+          | cons c2 r2 =>
+            by_cases hc2 : c2 = quoteChar
+            · subst hc2
+              simp only [List.cons_append]
+              rw [tok_q_doubled, tok_q_doubled]
+              have hr2 : r2.length ≤ n := by simp at hr; omega
+              exact ih r2 hr2 _ _ _ true (fun _ => rfl) (by simpa [unbalanced] using hu)
+            · simp only [List.cons_append]
+              rw [tok_q_close env (c2 :: (r2 ++ c :: t)) args arg ch (by simpa using hc2),
+                tok_q_close env (c2 :: r2) args arg ch (by simpa using hc2)]
+              have := ih (c2 :: r2) hr args (arg ++ ch) (some []) false (by simp) (by simpa [unbalanced] using hu)
+              simpa using this
+        · rw [tok_q_other env x _ args arg ch hxq, tok_q_other env x _ args arg ch hxq]
+          exact ih r hr _ _ _ true (fun _ => rfl) (by simpa [unbalanced, hxq] using hu)
 
 end GIV.Script
